@@ -170,6 +170,9 @@ def _init(options: Options, params: optax.Params) -> _SketchyState:
     memory_alloc = options.memory_alloc
     ekfac = options.ekfac_svd
     total_dim_prod = jnp.prod(jnp.array(param.shape))
+    # State arrays take the parameter's dtype (the default float dtype differs
+    # from it under jax_enable_x64).
+    zeros = functools.partial(jnp.zeros, dtype=param.dtype)
     for d in param.shape:
       if d == 1:
         raise ValueError(
@@ -192,15 +195,15 @@ def _init(options: Options, params: optax.Params) -> _SketchyState:
 
       axes.append(
           _AxisState(
-              eigvecs=jnp.zeros((d, k)),
-              eigvals=jnp.zeros((k,)),
-              inv_eigvals=jnp.zeros((k,)),
-              tail=jnp.zeros(tuple()),
-              inv_tail=jnp.zeros(tuple()),
-              ema_ggt=jnp.zeros((d, d)) if add_ggt else optax.MaskedNode(),
-              svd_result_u=jnp.zeros((d, m)) if ekfac else optax.MaskedNode(),
-              svd_result_s=jnp.zeros((m,)) if ekfac else optax.MaskedNode(),
-              inv_prev_tail=jnp.zeros(tuple()) if ekfac else optax.MaskedNode(),
+              eigvecs=zeros((d, k)),
+              eigvals=zeros((k,)),
+              inv_eigvals=zeros((k,)),
+              tail=zeros(tuple()),
+              inv_tail=zeros(tuple()),
+              ema_ggt=zeros((d, d)) if add_ggt else optax.MaskedNode(),
+              svd_result_u=zeros((d, m)) if ekfac else optax.MaskedNode(),
+              svd_result_s=zeros((m,)) if ekfac else optax.MaskedNode(),
+              inv_prev_tail=zeros(tuple()) if ekfac else optax.MaskedNode(),
           )
       )
     return _TensorState(axes)
